@@ -89,7 +89,7 @@ structure FS where
 
 def lookupFile (l : List (String Ã— StoreFile)) (n : String) : Option StoreFile := (l.find? (Â·.1 == n)).map (Â·.2)
 
-inductive Refusal | missingInput | outputExists | fieldSets | indexability | noInputs
+inductive Refusal | missingInput | outputExists | fieldSets | indexability | noInputs | duplicateNames
 deriving DecidableEq, Repr
 
 /-- `_check_merge_arguments` + the validation loop of `merge` (nothing is created or moved here) -/
@@ -97,6 +97,9 @@ def validate (fsys : FS) (inputs : List String) : Except Refusal (List (String Ã
   match inputs.mapM (fun n => (fsys.top n).map (fun f => (n, f))) with
   | none => .error .missingInput
   | some fs =>
+    -- the inputs are moved into one directory under their own names: equal names are refused [code after the C09 fix; before
+    -- it the second input silently replaced the first]
+    if !decide inputs.Nodup then .error .duplicateNames else
     if fsys.out.isSome then .error .outputExists else
     match fs with
     | [] => .error .noInputs
@@ -190,7 +193,7 @@ def getFileJ (j : Json) : Except String (String Ã— StoreFile) := do
 
 def refusalStr : Refusal â†’ String
   | .missingInput => "missing_input" | .outputExists => "output_exists" | .fieldSets => "field_sets"
-  | .indexability => "indexability" | .noInputs => "no_inputs"
+  | .indexability => "indexability" | .noInputs => "no_inputs" | .duplicateNames => "duplicate_names"
 
 def fsJ (names : List String) (fsys : FS) : Json :=
   obj [("top", putStrs (names.filter (fun n => (fsys.top n).isSome))),
